@@ -567,7 +567,7 @@ func mutate(s src, o *genOut, opt genOpts, p *pointJ, lp *lineParts, sc *schema)
 // genCase draws one request.
 func genCase(s src, opt genOpts) *genOut {
 	o := &genOut{classes: map[string]bool{}}
-	cs := &caseJ{Kind: "bb_batch"}
+	cs := &caseJ{Kind: "bb_batch", Prefix: opt.prefix}
 	if opt.lib {
 		cs.Kind = "lib_batch"
 	}
@@ -582,6 +582,7 @@ func genCase(s src, opt genOpts) *genOut {
 		schemas[j] = genSchema(s, o, opt, j)
 	}
 	nl := opt.minLines + s.n("nlines", opt.maxLines-opt.minLines+1)
+	size := 0
 	brokenMode := s.n("broken_mode", 4) // 0,1: none; 2: a few anywhere; 3: the last line (and maybe others)
 	for i := 0; i < nl; i++ {
 		sc := schemas[s.n("schema", nsch)]
@@ -606,6 +607,10 @@ func genCase(s src, opt genOpts) *genOut {
 		}
 		l.Text = lp.text()
 		cs.Lines = append(cs.Lines, l)
+		if size += len(l.Text) + 40; size > 40000 {
+			o.class("body_cut_at_40k") // the handler parses the body in blocks of 64 KiB: one request = one block
+			break
+		}
 	}
 	nb, last := cs.broken()
 	switch {
